@@ -110,6 +110,9 @@ type Result struct {
 	Fallible bool           // a fallible site (custom function, enum @error, struct method with error) is part of the plan
 	WrapPkgs map[string]bool // wrapErrorsUsing packages in effect at fallible sites (import required)
 	WrapFmt  bool            // wrapErrors in effect at a fallible site (fmt import possible)
+	// WrapOptional: wrapErrorsUsing packages of the methods an error passes through on its way up (they wrap it with a
+	// path element only when a field, index or key lies in between: import possible, not required)
+	WrapOptional map[string]bool
 	Plan    *rt.PlanSet
 	// Fallible: the top method needs an error result
 	States      map[string]bool
@@ -142,7 +145,7 @@ func (m *modeler) unspec(format string, a ...any) {
 
 // Judge computes verdict and plan of one declared method of the converter.
 func Judge(conv *Converter, meth *Method) *Result {
-	m := &modeler{conv: conv, defs: map[string]*rt.Plan{}, res: &Result{States: map[string]bool{}, Pkgs: map[string]bool{}, WrapPkgs: map[string]bool{}}, pending: map[string]bool{}}
+	m := &modeler{conv: conv, defs: map[string]*rt.Plan{}, res: &Result{States: map[string]bool{}, Pkgs: map[string]bool{}, WrapPkgs: map[string]bool{}, WrapOptional: map[string]bool{}}, pending: map[string]bool{}}
 	m.topCtx = meth.CtxTypes
 	// two declared methods with one signature whose context sets contain each other are ambiguous
 	for i, a := range conv.Methods {
@@ -414,6 +417,18 @@ func (m *modeler) noteFallible(e *env) {
 	} else if e.set.WrapErrors {
 		m.res.WrapFmt = true
 	}
+	m.noteChainWrap(e)
+}
+
+// noteChainWrap: every method on the way up may wrap the error with its own wrapping mode.
+func (m *modeler) noteChainWrap(e *env) {
+	for _, x := range append([]*env{e}, e.chain...) {
+		if x.set.WrapErrorsUsing != "" {
+			m.res.WrapOptional[x.set.WrapErrorsUsing] = true
+		} else if x.set.WrapErrors {
+			m.res.WrapFmt = true
+		}
+	}
 }
 
 // needErr checks that every explicit method on the origin chain returns an error.
@@ -474,6 +489,9 @@ func (m *modeler) pos(e *env, s, t *space.Ty) *rt.Plan {
 		}
 		if dm.HasErr && !m.needErr(e) {
 			return m.reject("declared method %s returns error but caller has no error result", dm.Name)
+		}
+		if dm.HasErr {
+			m.noteChainWrap(e)
 		}
 		key := "m:" + dm.Name
 		m.ensure(key, func() *rt.Plan { return m.method(dm) })
